@@ -6,7 +6,7 @@
 # prints which obligations fire. `git -C /repo apply` + `./run.sh` + `git -C /repo
 # checkout -- .` gives the same verdicts.
 d=$(readlink -f "$1"); shift
-wt=/tmp/seedtestwt
+wt=${SEEDWT:-/tmp/seedtestwt}
 if [ ! -d $wt ]; then git -C /repo worktree add --detach $wt HEAD -q || exit 2; fi
 git -C $wt checkout -q --detach "$(git -C /repo rev-parse HEAD)" && git -C $wt checkout -q -- . && git -C $wt clean -fdq
 git -C $wt apply "$d/patch.diff" || { echo "patch does not apply"; exit 2; }
